@@ -440,7 +440,7 @@ class BaseTreeParamName(ParamNameInterface, AbstractTreeName):
 
     def get_public_name(self):
         name = self.string_name
-        if name.startswith('__'):
+        if name.startswith('__') and self.get_root_context().is_stub():
             # Params starting with __ are an equivalent to positional only
             # variables in typeshed.
             name = name[2:]
